@@ -21,7 +21,7 @@ import specreader
 
 ID = 'C02'
 TITLE = 'Written text files follow the published format; conformant files load as such'
-GEN = ['Headers', 'SpecColumns', 'FileNames']
+GEN = ['Headers', 'SpecColumns', 'FileNames', 'RecordSchemas']
 RULE = ('each case = a generated dataset and a layout seed (columns comment first / missing / after some data rows); all 14 top-level files, the three descriptor files and points3d are '
         're-laid-out with per-line random choices (0-3 blanks of space/tab on each side of each field, comment/blank lines between '
         'rows, row order shuffled where the format does not number rows, LF/CRLF/CR per line, 0-3 leading zeros on timestamps, point '
